@@ -306,7 +306,7 @@ pub fn run(args: &Args, rec: &mut Recorder) {
     rec.assumptions.push("floats are finite (the format has no spelling for inf/NaN); model equality is the crate's PartialEq".into());
     let g = Grammar::load_default();
     let k = if args.thorough { 6 } else { 3 };
-    let total: u64 = if args.thorough { 600_000 } else { 20_000 };
+    let total: u64 = if args.thorough { 600_000 } else { 60_000 };
     let scratch = crate::c03::scratch_dir(args);
     run_cases(args, rec, total, crate::util::reset_budget, |rng, case, rec| {
         let variant = case % 10;
